@@ -9,7 +9,7 @@ from typing import Any, Dict, List
 
 from .. import gen, hta
 from ..core import Prop
-from .common import case_from_cfg, draw_prefix, write_and_load
+from .common import file_entries, case_from_cfg, draw_prefix, write_and_load
 
 
 def rows_full(ta, rank: int) -> List[Dict[str, Any]]:
@@ -94,7 +94,7 @@ class C14(Prop):
                                 ceq.append({"ts": hta.ival(e["ts"]) - base, "pid": hta.ival(e["pid"]), "sid": hta.ival(e["id"]), "val": hta.ival(val), "name": e["name"]})
                             else:
                                 cebw.append({"ts": hta.ival(e["ts"]) - base, "pid": hta.ival(e["pid"]), "sid": -1, "val": hta.scaled(val, 64), "name": e["name"]})
-                    obs["ranks"].append({"rank": r, "rows": rows[r], "q": qser[r], "bw": bwser[r], "ceq": ceq, "cebw": cebw})
+                    obs["ranks"].append({"rank": r, "file": file_entries(case, r), "rows": rows[r], "q": qser[r], "bw": bwser[r], "ceq": ceq, "cebw": cebw})
             except Exception as ex:
                 obs["err"] = hta.exc_str(ex)
             return obs
@@ -138,7 +138,7 @@ class C15(Prop):
                 for r in req:
                     stats = [{"corr": hta.ival(t[0]), "cpu": hta.ival(t[1]), "gpu": hta.ival(t[2]), "delay": hta.ival(t[3])}
                              for t in res[r][["correlation", "cpu_duration", "gpu_duration", "launch_delay"]].itertuples(index=False)]
-                    obs["ranks"].append({"rank": r, "rows": rows_full(ta, r), "stats": stats})
+                    obs["ranks"].append({"rank": r, "file": file_entries(case, r), "rows": rows_full(ta, r), "stats": stats})
             except Exception as ex:
                 obs["err"] = hta.exc_str(ex)
             return obs
@@ -216,7 +216,7 @@ class C06(Prop):
                         out = [{"stream": hta.ival(t[0]), "cat": str(t[1]), "idle": hta.ival(t[2]), "ratio": hta.scaled(t[3], 100) if t[3] == t[3] else 0}
                                for t in sub[["stream", "idle_category", "idle_time", "idle_time_ratio"]].itertuples(index=False)]
                         expect = own[r] if not arg else [s for s in arg if s in own[r]]
-                        obs["ranks"].append({"rank": r, "rows": rows[r], "streams": expect, "out": out, "call": mode})
+                        obs["ranks"].append({"rank": r, "file": file_entries(case, r), "rows": rows[r], "streams": expect, "out": out, "call": mode})
             except Exception as ex:
                 obs["err"] = hta.exc_str(ex)
             return obs
